@@ -15,7 +15,7 @@ RULE = ("Cases: 'tmp': TmpPool(fresh scratch dir, multi_proc) with a body of cre
         "pool.remove / flush / len / index operations; for every generated body the with-block is executed once without fault and once "
         "for EVERY position p at which the body raises (all fault positions enumerated); multi-process pools additionally fork 1..3 "
         "children (multiprocessing fork context) that each create 1..3 files inside the context; 'conc': the parent and 1..2 forked children remove (disjoint shares of) and create files of one multi_proc pool at the same time, with single os.remove/create turns granted by a generated schedule. 'files': FilePool over 0..5 distinct "
-        "paths in mode r/rb/r+/w/wb/a/w+ with reads/writes through the handles and the same fault enumeration. Oracle: returned paths "
+        "paths in mode r/rb/r+/w/wb/a/w+ with reads/writes through the handles and the same fault enumeration, and pools in which one path cannot be opened (entering must raise and leave no descriptor of the earlier paths open). Oracle: returned paths "
         "distinct and existing; after every step list(pool) == created-and-not-removed == files present in the scratch directory; after "
         "flush and after leaving the context (normally or by the exception, which must propagate unchanged) the directory is empty, "
         "children's files included; FilePool: inside the context keys == paths and every value is an open handle of that path and mode, "
@@ -203,7 +203,60 @@ def run_tmp(case, ctx):
 MODES = ["r", "rb", "r+", "w", "wb", "a", "w+"]
 
 
+def open_fds_under(d):
+    out = []
+    try:
+        for fd in os.listdir("/proc/self/fd"):
+            try:
+                t = os.readlink("/proc/self/fd/" + fd)
+            except OSError:
+                continue
+            if t.startswith(d):
+                out.append(t)
+    except OSError:
+        pass
+    return out
+
+
+def run_files_unopenable(case, ctx):
+    """one of the given paths cannot be opened: entering the context raises, and nothing opened before it may stay open"""
+    import gc
+    ctx.label("files")
+    ctx.label("filepool-unopenable-path")
+    mode, n, bad = case["mode"], max(1, case["n"]), case["missing"] % max(1, case["n"])
+    with FG.Scratch() as sc:
+        paths = [sc.path("u%d.txt" % i) for i in range(n)]
+        for i, q in enumerate(paths):
+            if i == bad:
+                if mode in ("r", "rb", "r+"):
+                    continue            # missing file
+                os.mkdir(q)             # a directory cannot be opened for writing / appending
+            else:
+                with open(q, "w") as fh:
+                    fh.write("x\n")
+        pool = F.FilePool(list(paths), mode)
+        entered = False
+        try:
+            with pool:
+                entered = True
+        except OSError:
+            pass
+        except Exception as e:  # noqa
+            ctx.fail("FilePool/unopenable/exception-%s" % type(e).__name__, "entering a pool with an unopenable path raised %r" % (e,))
+        if entered:
+            ctx.fail("FilePool/unopenable/entered", "the context was entered although %r cannot be opened in mode %r" % (paths[bad], mode))
+        gc.collect()
+        left = open_fds_under(sc.d)
+        if left:
+            ctx.fail("FilePool/unopenable/handles-left-open", "mode %r, %d paths, unopenable no. %d: descriptors still open after the failed enter: %d"
+                     % (mode, n, bad, len(left)))
+        if bad > 0:
+            ctx.nontrivial = True
+
+
 def run_files(case, ctx):
+    if case.get("missing") is not None:
+        return run_files_unopenable(case, ctx)
     ctx.label("files")
     mode = case["mode"]
     n = case["n"]
@@ -402,6 +455,7 @@ def strategies(tier):
                                    "children": st.lists(st.integers(1, 3), min_size=0, max_size=3),
                                    "body": codes(0, 6).map(lambda cs: [dec_tmp(c) for c in cs])})
     files = st.fixed_dictionaries({"kind": st.just("files"), "mode": st.sampled_from(MODES), "n": st.integers(0, 5),
+                                   "missing": st.one_of(st.none(), st.none(), st.none(), st.integers(0, 4)),
                                    "as_generator": st.booleans(),
                                    "body": codes(0, 6).map(lambda cs: [[["read", "write"][c % 2], (c // 2) % 5] for c in cs])})
     cop = st.one_of(st.tuples(st.just("remove"), st.integers(0, 9)).map(list), st.tuples(st.just("remove"), st.integers(0, 9)).map(list), st.just(["create"]))
